@@ -7,7 +7,7 @@ CONSTANTS
   Reasons = {"ra", "rb"}
   Coupled = TRUE
   KeptSizes = {1, 2}
-  ResizeKept = {1, 3}
+  ResizeKept = {1, 2, 3}
   DropSizes = {3}
   MaxQueue = 1
   MaxCount = 0
